@@ -132,6 +132,7 @@ def run_table(case):
     # weak qualifying evidence: a few good reads of a catalogued variant (a fraction that may lie between the stage thresholds)
     nweak = 0
     weak_dir = False
+    weak_stray = False
     for j, n in case.get("weak", []) if sites else []:
         p, o = sites[j % len(sites)]
         if cn.position_cn(p) > 0 and o not in raw.get(p, {}):
@@ -155,6 +156,34 @@ def run_table(case):
                 raw[p][o] = [(case["minmq"], case["minq"])] * n
                 nweak += 1
                 weak_dir = True
+
+    if case.get("weak_stray"):
+        # directed: a silent variant of a planted major's minor that no copy carries gets just enough qualifying reads to pass the
+        # single-copy fraction of (reference + variant) reads, and a THIRD allele at the site gets a few qualifying reads - too few to
+        # survive the noise step, enough to push the variant below the fraction of ALL qualifying reads at the site
+        import math
+
+        th = case["thr"] / 100.0
+        cand = sorted({tuple(m) for a, _ in sel for mi in gene.alleles[a].minors.values() for m in mi.neutral_muts}
+                      - {m for _, ms in copies for m in ms})
+        cand = [m for m in cand if cn.position_cn(m[0]) > 0 and len(m[1]) == 3 and gene[m[0]] in "ACGT"
+                and not any(q[0] == m[0] and q != m for q in gene.mutations)]
+        if cand:
+            p, o = cand[case["weak_stray"] % len(cand)]
+            t = th / (cn.position_cn(p) + 0.5)
+            R = len(raw.get(p, {}).get("_", [])) or int(case["depth"] * cn.position_cn(p))
+            if t < 0.9:
+                n = max(case["mincov"], int(math.ceil(t * R / (1 - t))))
+                need = (n * (1 - t) - t * R) / t  # stray reads needed to push the variant below the fraction
+                s_ = int(math.floor(need)) + 1
+                tot = R + n + s_
+                if s_ < max(case["mincov"], tot * th / prof.cn_max) and n < t * tot and n >= t * (R + n):
+                    other = [b for b in "ACGT" if b != gene[p] and b != o[2]][0]
+                    raw.setdefault(p, {}).setdefault("_", [good] * R)
+                    raw[p][o] = [(case["minmq"], case["minq"])] * n
+                    raw[p][f"{gene[p]}>{other}"] = [good] * s_
+                    nweak += 1
+                    weak_stray = True
 
     def bad_qual():
         opts = []
@@ -210,6 +239,8 @@ def run_table(case):
         labels.append("weak-qualifying-evidence")
     if weak_dir:
         labels.append("silent-variant-with-fraction-between-the-two-copy-number-thresholds")
+    if weak_stray:
+        labels.append("variant-below-the-fraction-only-when-a-third-allele-is-counted")
     if any(cn.position_cn(p) < cn.max_cn() for p, _ in sites if cn.position_cn(p) > 0):
         labels.append("copy-number-varies-along-gene")
     viol = []
@@ -294,7 +325,7 @@ def strategy(tier):
              "struct": st.lists(st.integers(0, 9), min_size=1, max_size=3), "depth": st.sampled_from([8, 15, 25]),
              "minq": st.sampled_from([0, 10, 10, 20, 40]), "minmq": st.sampled_from([0, 10, 10, 30]),
              "mincov": st.integers(1, 10), "thr": st.sampled_from([10, 30, 50, 50, 70, 90]), "seed": st.integers(0, 10 ** 6),
-             "with_del": st.booleans(), "weak_directed": st.sampled_from([0, 0, 1, 2, 3]), "weak": st.lists(st.tuples(st.integers(0, 60), st.integers(1, 20)).map(list), max_size=3),
+             "with_del": st.booleans(), "weak_directed": st.sampled_from([0, 0, 1, 2, 3]), "weak_stray": st.sampled_from([0, 0, 1, 2, 3]), "weak": st.lists(st.tuples(st.integers(0, 60), st.integers(1, 20)).map(list), max_size=3),
              "requal": st.none() | st.tuples(st.sampled_from([0, 15, 35, 45]), st.sampled_from([0, 15, 35, 45])).map(list)}
         if g == "gen":
             d["db"] = gen_db.db_specs(gaps=False, pseudo=True, force_sv=True, small=True, max_sites=6, max_alleles=6)
